@@ -124,6 +124,7 @@ MUTANTS = [
     M('sema:while:body-dropped', 'sema', ['C06'], 'stmt_to_asg_stmt', 'Some(asg::While::new(condition.unwrap(), loop_body).to_stmt())', 'Some(asg::While::new(condition.unwrap(), asg::Block::new(Vec::new())).to_stmt())'),
     M('sema:if:else-is-then', 'sema', ['C06'], 'stmt_to_asg_stmt', 'Some(asg::If::new(condition.unwrap(), then_branch, else_branch).to_stmt())', 'Some(asg::If::new(condition.unwrap(), then_branch.clone(), else_branch.map(|_b| then_branch)).to_stmt())'),
     M('sema:switch:case-body-dropped', 'sema', ['C06'], 'stmt_to_asg_stmt', 'asg::CaseExpr::new(int_exprs, statements)', 'asg::CaseExpr::new(int_exprs, Vec::new())'),
+    M('sema:literal:int-as-bool', 'sema', ['C06', 'C08'], 'literal_to_asg_texpr', 'asg::IntLiteral::new(num, true).to_texpr() // `true` means positive literal.', 'asg::BoolLiteral::new(num > 0).to_texpr()'),
     # ---- PARSER marker discipline
     M('parser:marker:complete-wrong-slot', 'parser', ['C01', 'C02'], 'Marker::complete', 'let idx = self.pos as usize;', 'let idx = (self.pos as usize) + 1;'),
     M('parser:marker:abandon-always-pops', 'parser', ['C01', 'C02'], 'Marker::abandon', 'if idx == p.events.len() - 1 {', 'if idx <= p.events.len() - 1 {'),
